@@ -124,3 +124,59 @@ Theorem C10_error_code_means_no_effect :
        (s' = s1 \/ (exists act ks th i, p = PBatchConfig act ks th i) /\ same_but_cfg_voting s' s1)).
 Proof. exact error_code_no_effect. Qed.
 Print Assumptions C10_error_code_means_no_effect.
+
+(* On the code as translated on this run (Generated/VotingFuns.v, from app/dkg.go and
+   app/voting.go): a DKG message that DKGInstance.Register*Msg refuses - with the error code or
+   as already seen - leaves the DKG instance exactly as it was, whatever the message contains
+   (no premise on the receiver / accused / accuser lists); AddVote refuses exactly a sender that
+   has voted and then returns no voting at all. *)
+From Verif Require Import Generated.VotingFuns Proofs.VotingFuns.
+Theorem C10_translated_refused_dkg_message_is_inert :
+  (forall d eon sender rs d' code, gen_register_poly_eval d eon sender rs = (d', Some code) -> d' = d) /\
+  (forall d eon sender d' code, gen_register_poly_commitment d eon sender = (d', Some code) -> d' = d) /\
+  (forall d eon sender l d' code, gen_register_accusation d eon sender l = (d', Some code) -> d' = d) /\
+  (forall d eon sender l d' code, gen_register_apology d eon sender l = (d', Some code) -> d' = d) /\
+  (forall (T : Type) (teqb : T -> T -> bool) v sender c,
+     gen_add_vote teqb v sender c = None <-> amem (v_votes v) sender = true).
+Proof.
+  split; [exact gen_register_poly_eval_refusal_inert|].
+  split; [exact gen_register_poly_commitment_refusal_inert|].
+  split; [exact gen_register_accusation_refusal_inert|].
+  split; [exact gen_register_apology_refusal_inert|].
+  intros T teqb v sender c. unfold gen_add_vote. cbv zeta.
+  destruct (amem (v_votes v) sender); split; intros H; try reflexivity; discriminate.
+Qed.
+Print Assumptions C10_translated_refused_dkg_message_is_inert.
+
+(* The model's four DKG message handlers are the translated Register*Msg functions wrapped in
+   the response construction: an accepted message changes one "seen" set of its DKG instance
+   and emits its event, a refused one answers the code and changes nothing. *)
+Theorem C10_translated_dkg_handlers_agree :
+  (forall s sender eon receivers evals d,
+     Nat.eqb (length receivers) (length evals) = true -> all_len20 receivers = true ->
+     addrs_unique receivers = true -> dkg_get (dkgs s) eon = Some d ->
+     handle_poly_eval s sender eon receivers evals =
+     via_register s eon (gen_register_poly_eval d eon sender receivers)
+                  (code_ok, [EvPolyEval sender eon receivers evals])) /\
+  (forall s sender eon gammas d,
+     forallb snd gammas = true -> dkg_get (dkgs s) eon = Some d ->
+     handle_poly_commitment s sender eon gammas =
+     via_register s eon (gen_register_poly_commitment d eon sender)
+                  (code_ok, [EvPolyCommitment sender eon (map fst gammas)])) /\
+  (forall s sender eon accused d,
+     all_len20 accused = true -> addrs_unique accused = true -> dkg_get (dkgs s) eon = Some d ->
+     handle_accusation s sender eon accused =
+     via_register s eon (gen_register_accusation d eon sender accused)
+                  (code_ok, [EvAccusation sender eon accused])) /\
+  (forall s sender eon accusers evals d,
+     Nat.eqb (length accusers) (length evals) = true -> all_len20 accusers = true ->
+     addrs_unique accusers = true -> dkg_get (dkgs s) eon = Some d ->
+     handle_apology s sender eon accusers evals =
+     via_register s eon (gen_register_apology d eon sender accusers)
+                  (code_ok, [EvApology sender eon accusers (map strip_zeros evals)])).
+Proof.
+  split; [exact handle_poly_eval_via_generated|].
+  split; [exact handle_poly_commitment_via_generated|].
+  split; [exact handle_accusation_via_generated|exact handle_apology_via_generated].
+Qed.
+Print Assumptions C10_translated_dkg_handlers_agree.
